@@ -533,8 +533,8 @@ func genHistory(t *rapid.T) history {
 
 func props() []rp.Prop {
 	return []rp.Prop{
-		rp.P[history]{Name: "history", Checks: ev.Pick(20000, 600000) / ev.Shards(), Gen: genHistory, Check: checkHistory},
-		rp.P[replyCase]{Name: "reply", Checks: ev.Pick(120000, 3000000) / ev.Shards(), Gen: genCase, Sweep: sweepOffsets, Check: checkReply},
+		rp.P[history]{Name: "history", Checks: ev.Pick(20000, 2000000) / ev.Shards(), Gen: genHistory, Check: checkHistory},
+		rp.P[replyCase]{Name: "reply", Checks: ev.Pick(120000, 6000000) / ev.Shards(), Gen: genCase, Sweep: sweepOffsets, Check: checkReply},
 		rp.P[replyCase]{Name: "sweep", Check: checkReply},
 	}
 }
